@@ -56,7 +56,8 @@ func VSpecICV(suite int, ka, data []byte) []byte {
 func HSKLayout() {
 	suite, role, tier := vr.Param(0), vr.Param(1), vr.Param(2)
 	km := VGenKeyMaterial(suite)
-	k := VNewKey(km)
+	// the SA key object may have been used before: its keyed-hash objects hold arbitrary octets
+	k := vUsedKey(km, 1+suite%3)
 	m := message.VGenMessage(3, tier)
 	orig := message.VClonePayloads(m.Payloads)
 	hdr := *m.IKEHeader
@@ -127,7 +128,7 @@ func VRefProtect(m *message.IKEMessage, km *VKeyMaterial, senderRole int, padlen
 func HAcceptReference() {
 	suite, role, hdrMode, tier := vr.Param(0), vr.Param(1), vr.Param(2), vr.Param(3)
 	km := VGenKeyMaterial(suite)
-	kR := VNewKey(km)
+	kR := vUsedKey(km, 1+suite%3)
 	m := message.VGenMessage(4, tier)
 	_, chain := message.VRefEncodeChain(m.Payloads, false, 0)
 	// all pad lengths p <= 255 with len(chain)+p+1 a multiple of 16
